@@ -629,3 +629,221 @@ func (p *Program) remethod(b *Baseline) (map[string][]byte, []string) {
 	}
 	return out, notes
 }
+
+// dropAddedParams returns an overlay in which a function of the inventory that has gained parameters it
+// never uses (blank, unnamed or unreferenced; every caller passes a literal, an identifier or a
+// selection for them) has its inventory signature again and the calls pass the old arguments. A
+// parameter that is used is left alone: the function then does something with it.
+func (p *Program) dropAddedParams(b *Baseline) (map[string][]byte, []string) {
+	type edit struct {
+		off, end int
+		text     string
+	}
+	edits := map[string][]edit{}
+	var notes []string
+	off := func(pos token.Pos) int { return p.Fset.Position(pos).Offset }
+	// removal range of element k of a comma-separated list given the elements' extents
+	cut := func(starts, ends []token.Pos, k int) (int, int) {
+		switch {
+		case k > 0:
+			return off(ends[k-1]), off(ends[k])
+		case len(starts) > 1:
+			return off(starts[0]), off(starts[1])
+		}
+		return off(starts[0]), off(ends[0])
+	}
+	for _, d := range p.declObjects() {
+		if d.Kind != "func" {
+			continue
+		}
+		baseT, inInv := b.Decls["func"][d.Name]
+		if !inInv {
+			continue
+		}
+		baseSig, _ := splitOrd(baseT)
+		curSig, _ := splitOrd(d.Type)
+		if baseSig == curSig {
+			continue
+		}
+		bp, br := splitSig(baseSig)
+		cp, cr := splitSig(curSig)
+		if br != cr || len(cp) <= len(bp) {
+			continue
+		}
+		var extra []int
+		i := 0
+		for j := range cp {
+			if i < len(bp) && cp[j] == bp[i] {
+				i++
+			} else {
+				extra = append(extra, j)
+			}
+		}
+		if i != len(bp) || len(extra) == 0 {
+			continue
+		}
+		fn, _ := d.obj.(*types.Func)
+		fd := p.Decl(fn)
+		if fn == nil || fd == nil || fd.Body == nil {
+			continue
+		}
+		pkg := p.declPkg[fd]
+		if pkg == nil {
+			continue
+		}
+		info := pkg.TypesInfo
+		// flatten the parameter names; only single-name (or unnamed) fields can be cut cleanly
+		type prm struct {
+			field *ast.Field
+			name  *ast.Ident
+		}
+		var prms []prm
+		clean := true
+		for _, f := range fd.Type.Params.List {
+			if len(f.Names) == 0 {
+				prms = append(prms, prm{f, nil})
+				continue
+			}
+			for _, nm := range f.Names {
+				prms = append(prms, prm{f, nm})
+			}
+		}
+		if len(prms) != len(cp) {
+			continue
+		}
+		isExtra := map[int]bool{}
+		for _, k := range extra {
+			isExtra[k] = true
+			pr := prms[k]
+			if len(pr.field.Names) > 1 {
+				clean = false
+			}
+			if _, variadic := pr.field.Type.(*ast.Ellipsis); variadic {
+				clean = false
+			}
+			if pr.name != nil && pr.name.Name != "_" {
+				obj := info.Defs[pr.name]
+				ast.Inspect(fd.Body, func(x ast.Node) bool {
+					if id, ok := x.(*ast.Ident); ok && obj != nil && info.Uses[id] == obj {
+						clean = false
+					}
+					return clean
+				})
+			}
+		}
+		if !clean {
+			continue
+		}
+		// every reference is the callee of a call
+		type ref struct {
+			file string
+			call *ast.CallExpr
+		}
+		var refs []ref
+		for _, f := range pkg.Syntax {
+			fname := p.Fset.Position(f.Pos()).Filename
+			var stack []ast.Node
+			ast.Inspect(f, func(n ast.Node) bool {
+				if n == nil {
+					stack = stack[:len(stack)-1]
+					return false
+				}
+				stack = append(stack, n)
+				id, isID := n.(*ast.Ident)
+				if !isID {
+					return true
+				}
+				o, _ := info.Uses[id].(*types.Func)
+				if o == nil || o.Origin() != fn {
+					return true
+				}
+				var call *ast.CallExpr
+				if len(stack) >= 2 {
+					switch par := stack[len(stack)-2].(type) {
+					case *ast.CallExpr:
+						if par.Fun == ast.Expr(id) {
+							call = par
+						}
+					case *ast.SelectorExpr:
+						if par.Sel == id && len(stack) >= 3 {
+							if c2, ok := stack[len(stack)-3].(*ast.CallExpr); ok && c2.Fun == ast.Expr(par) {
+								call = c2
+							}
+						}
+					}
+				}
+				if call == nil || call.Ellipsis.IsValid() || len(call.Args) != len(cp) {
+					clean = false
+					return true
+				}
+				for _, k := range extra {
+					if !plainOperandExpr(call.Args[k]) {
+						if _, isLit := call.Args[k].(*ast.BasicLit); !isLit {
+							clean = false
+						}
+					}
+				}
+				refs = append(refs, ref{fname, call})
+				return true
+			})
+		}
+		if !clean || len(extra) > 1 {
+			continue // several cuts in one list may overlap: only the single-parameter case is rewritten
+		}
+		file := p.Fset.Position(fd.Pos()).Filename
+		// cut the parameters (fields are single-name or unnamed here, so fields are the list elements)
+		var fstarts, fends []token.Pos
+		fieldIdx := map[*ast.Field]int{}
+		for fi, f := range fd.Type.Params.List {
+			fstarts, fends = append(fstarts, f.Pos()), append(fends, f.End())
+			fieldIdx[f] = fi
+		}
+		overlap := false
+		done := map[int]bool{}
+		for _, k := range extra {
+			fi := fieldIdx[prms[k].field]
+			if done[fi] {
+				continue
+			}
+			done[fi] = true
+			if fi > 0 && done[fi-1] || done[fi+1] {
+				overlap = true // adjacent cuts would overlap: keep it simple
+			}
+			a, e := cut(fstarts, fends, fi)
+			edits[file] = append(edits[file], edit{a, e, ""})
+		}
+		for _, r := range refs {
+			var starts, ends []token.Pos
+			for _, a := range r.call.Args {
+				starts, ends = append(starts, a.Pos()), append(ends, a.End())
+			}
+			for _, k := range extra {
+				a, e := cut(starts, ends, k)
+				edits[r.file] = append(edits[r.file], edit{a, e, ""})
+			}
+		}
+		_ = overlap
+		notes = append(notes, fmt.Sprintf("%s (an unused parameter dropped)", d.Name[strings.LastIndex(d.Name, "/")+1:]))
+	}
+	if len(notes) == 0 {
+		return nil, nil
+	}
+	out := map[string][]byte{}
+	for f, src := range p.overlay {
+		out[f] = src
+	}
+	for file, es := range edits {
+		buf := append([]byte(nil), p.sourceOf(file)...)
+		sort.Slice(es, func(i, j int) bool { return es[i].off > es[j].off })
+		lastOff := len(buf) + 1
+		for _, e := range es {
+			if e.end > lastOff {
+				continue
+			}
+			lastOff = e.off
+			buf = append(buf[:e.off], append([]byte(e.text), buf[e.end:]...)...)
+		}
+		out[file] = buf
+	}
+	return out, notes
+}
